@@ -12,3 +12,11 @@ func matchRegexp(pattern, s string) bool {
 
 // effectObligations: the goframe pass (built below in goframe.go).
 func (u *Universe) effectObligations(prop string) []FrameResult { return u.goframe(prop) }
+
+// CaseCalls: a frame condition on one case of a type switch: only the listed
+// functions / methods may be called there (what the case may depend on).
+type CaseCalls struct {
+	Type    string
+	Allowed []string
+	Line    int
+}
